@@ -29,7 +29,11 @@ def _body(cs, a, b, k, x):
     # key k is a call pattern: patterns 0 and 1 share their only positional argument
     PATS = [((1,), {}), ((1,), {"scale": 10}), ((2,), {})]
 
+    failmode = [False]
+
     async def f(*a, **kw):
+        if failmode[0]:
+            raise ValueError("failing call")
         key = 0
         for i, (pa, pk) in enumerate(PATS):
             if pa == a and pk == kw:
@@ -155,6 +159,17 @@ def _body(cs, a, b, k, x):
     ic = cf.cache_info()
     if (ic.hits, ic.misses, ic.currsize) != (0, 0, 0):
         ok = fail("lru_cache:cache_clear-does-not-reset-at-quiescence", ic) and ok
+    # a failed call stores nothing but is counted; clearing the (empty) cache resets the counters
+    failmode[0] = True
+    rf = D.call(cf(0))
+    failmode[0] = False
+    ic = cf.cache_info()
+    if rf[0] != "exc" or (ic.hits, ic.misses, ic.currsize) != (0, 1, 0):
+        ok = fail("lru_cache:failed-call-miscounted-or-stored", (rf, ic)) and ok
+    cf.cache_clear()
+    ic = cf.cache_info()
+    if (ic.hits, ic.misses, ic.currsize) != (0, 0, 0):
+        ok = fail("lru_cache:cache_clear-does-not-reset-an-empty-cache", ic) and ok
     for v in W.viol:
         ok = fail("lru_cache:%s" % v, choices.trace) and ok
     switches = 0
